@@ -66,6 +66,10 @@ def render(abstract, per_class, rnd):
     profs, docs = corpus.representatives(abstract["pclass"], abstract["dclass"])
     pairs = [(p, d) for p in profs for d in docs]
     rnd.shuffle(pairs)
+    # representatives that are always there whatever the sample: a byte order mark in front of the data, the empty text
+    must = [(p, d) for p, d in pairs if d in ("\ufeff{}", "")][:2]
+    pairs = must + [x for x in pairs if x not in must]
+    per_class = max(per_class, len(must))
     out = []
     for p, d in pairs[:per_class]:
         out.append({"entry": abstract["entry"], "chan": abstract["chan"], "profile": p, "data": d,
@@ -139,7 +143,7 @@ def to_trace(obs_rows, scope):
                     pclass, dclass = "ok", "ok"
                 elif pclass not in FAILING_P and dclass not in FAILING_D:
                     dclass = "notJson"
-                sha = c.get("sha", "") if kind == "report" else "kind:" + kind
+                sha = c.get("sha", "") if kind == "report" else "kind:" + kind + (":" + c["errsha"] if c.get("errsha") else "")
                 if kind not in ("report", "handle"):
                     kind = "error"      # a panic or a timeout that the reference shows as well is not this property's business
             else:
